@@ -106,9 +106,9 @@ var genInstrBin = rapid.Custom(func(t *rapid.T) Instr { return genInstr(t, true)
 
 func genC14(t *rapid.T) C14Case {
 	if rapid.Bool().Draw(t, "binary") {
-		return C14Case{Prog: rapid.SliceOfN(genInstrBin, 1, 30).Draw(t, "prog")}
+		return C14Case{Prog: genSlice(t, genInstrBin, 1, 30, "prog")}
 	}
-	return C14Case{Prog: rapid.SliceOfN(genInstrText, 1, 30).Draw(t, "prog")}
+	return C14Case{Prog: genSlice(t, genInstrText, 1, 30, "prog")}
 }
 
 // vmEncode encodes one instruction with the repository's own vm.NewLine.
